@@ -413,6 +413,49 @@ pub fn c09(ctx: &mut Ctx) {
             check_parse(ctx, "d", &wrapped, &ed);
         }
     }
+    // ---------------- DEEP structures (nothing above nests more than a dozen levels): parentheses nested 255/256/257/300 deep
+    // in both notations, a Classic variable referring to a binder 255/256/257/300 levels up, and 255–300 distinct free names
+    for n in [254usize, 255, 256, 257, 300, 600] {
+        // right-nested applications 1(1(1(…))) : n opening parentheses
+        let mut t = Var(1);
+        for _ in 0..n {
+            t = app(Var(1), t);
+        }
+        let mut td = Vec::new();
+        term_tokens_dbr(&t, 0, &mut Rng::new(7), &mut td);
+        let ed = ref_parse(&td);
+        let sx = render(&td, 0, &mut ctx.rng);
+        check_parse(ctx, "d", &sx, &ed);
+        let sc: String = format!("{}{}", "x (".repeat(n), "x") + &")".repeat(n);
+        check_parse(ctx, "c", &sc, &Some(t.clone()));
+        // abstractions in operand position, n deep: 1(λ1(λ1(…)))
+        let mut u = Var(1);
+        for _ in 0..n {
+            u = app(Var(1), abs(u));
+        }
+        let mut tu = Vec::new();
+        term_tokens_dbr(&u, 0, &mut Rng::new(9), &mut tu);
+        let eu = ref_parse(&tu);
+        let su = render(&tu, 1, &mut ctx.rng);
+        check_parse(ctx, "d", &su, &eu);
+        // λx. λy.…(n times)… x   : the variable refers to the binder n + 1 levels up
+        let sb: String = format!("λx.{}x", "λy.".repeat(n));
+        let mut eb = Var(n + 1);
+        for _ in 0..=n {
+            eb = abs(eb);
+        }
+        check_parse(ctx, "c", &sb, &Some(eb));
+        // n distinct free names, the first one used again at the end: v0 v1 … v(n-1) v0
+        let names: Vec<String> = (0..n).map(|i| format!("v{}", i)).collect();
+        let sf = format!("{} v0", names.join(" "));
+        let mut ef = Var(1);
+        for i in 1..n {
+            ef = app(ef, Var(i + 1));
+        }
+        ef = app(ef, Var(1));
+        check_parse(ctx, "c", &sf, &Some(ef));
+        ctx.count("deep_structures");
+    }
     // ---------------- lexical errors: first character that cannot start/continue a token
     let bad = ['-', '+', '#', '_', '.', '!', 'g', 'z', 'G', '[', 'ƒ'];
     let n = if ctx.thorough { 6000 } else { 1200 };
@@ -919,6 +962,18 @@ fn printer_universe(ctx: &mut Ctx, max_idx_15: bool) -> Vec<Term> {
         crate::props::Sizes { enum_size: 6, enum_free: 2, n_random: 3000, rand_size: 40 }
     };
     let mut uni = crate::props::universe(ctx, &sz, false);
+    // deep nesting: parentheses 255/256/257/300 levels deep in the printed form (operand applications, operand abstractions)
+    for n in [255usize, 256, 257, 300] {
+        let mut t = Var(2);
+        let mut u = Var(1);
+        for k in 0..n {
+            t = app(Var(1 + k % 3), t);
+            u = app(Var(1), abs(u));
+        }
+        uni.push(t);
+        uni.push(u.clone());
+        uni.push(abs(u));
+    }
     // repeated identical subterms: M M, M M M, λ.M M, M (M M) … for small random M (variables, abstractions AND applications)
     let nself = if ctx.thorough { 3000 } else { 400 };
     for _ in 0..nself {
